@@ -116,10 +116,29 @@ PrimitiveSameGroup(e) == e.ind_prim.number = e.number
 \* volume per atom of the primitive cell matches the input:  vol_prim / n_prim = vol_in / n_in  (1e-3 A^3 units, +-1e-4 relative)
 VolumePerAtom(e) == LET lhs == (e.prim.vol \div 8) * (e.n_in)  rhs == (e.vol_in \div 8) * (e.prim.n)
                     IN Abs(lhs - rhs) <= (lhs \div 5000) + e.n_in + e.prim.n
+\* ---- binding of the label transport (design model: Mappings.tla) to the dataset the analyzer worked from:
+\* every atom of the conventional cell carries the (normalizer-permuted) letter and the orbit of the input atoms that are its
+\* translational copies; pi ranges over the tabulated letter permutations of the group and the identity
+DsFibre(e, k) == CHOOSE o \in 1..Len(e.ds.m2p) : e.ds.m2p[o] = k
+DsSane(e) == /\ e.ds.has /\ Len(e.ds.wy) = e.n_in /\ Len(e.ds.m2p) = e.n_in /\ Len(e.ds.orb) = e.n_in
+             /\ \A o1, o2 \in 1..e.n_in : e.ds.m2p[o1] = e.ds.m2p[o2] => (e.ds.wy[o1] = e.ds.wy[o2] /\ e.ds.orb[o1] = e.ds.orb[o2] /\ e.z_orig[o1] = e.z_orig[o2])
+             /\ \A c \in 1..Len(e.ds.s2p) : \E o \in 1..e.n_in : e.ds.m2p[o] = e.ds.s2p[c]
+PermApply(n, l) == IF \E i \in 1..Len(n.pfrom) : n.pfrom[i] = l THEN n.pto[CHOOSE i \in 1..Len(n.pfrom) : n.pfrom[i] = l] ELSE l
+IdPerm == [pfrom |-> <<>>, pto |-> <<>>]
+LetterPerms(sg) == {IdPerm} \cup {[pfrom |-> Tab[sg].norms[k].pfrom, pto |-> Tab[sg].norms[k].pto] : k \in 1..Len(Tab[sg].norms)}
+DatasetCarried(e) ==
+   /\ Len(e.ds.s2p) = e.conv.n /\ Len(e.let_conv) = e.conv.n /\ Len(e.eq_conv) = e.conv.n /\ Len(e.let_orig) = e.n_in /\ Len(e.eq_orig) = e.n_in
+   /\ \A o \in 1..e.n_in : e.eq_orig[o] = e.ds.orb[o]
+   /\ \A c \in 1..e.conv.n : e.conv.z[c] = e.z_orig[DsFibre(e, e.ds.s2p[c])]
+   /\ \A c1, c2 \in 1..e.conv.n : (e.eq_conv[c1] = e.eq_conv[c2]) <=> (e.ds.orb[DsFibre(e, e.ds.s2p[c1])] = e.ds.orb[DsFibre(e, e.ds.s2p[c2])])
+   /\ \E n \in LetterPerms(e.number) :
+         /\ \A o \in 1..e.n_in : e.let_orig[o] = PermApply(n, e.ds.wy[o])
+         /\ \A c \in 1..e.conv.n : e.let_conv[c] = PermApply(n, e.ds.wy[DsFibre(e, e.ds.s2p[c])])
 V12(e) == IF ~OneEntryPerAtom(e) THEN "OneEntryPerAtom" ELSE IF ~EquivalentShareElementAndLetter(e) THEN "EquivalentShareElementAndLetter"
           ELSE IF ~LetterCountsProportional(e) THEN "LetterCountsProportional" ELSE IF ~PrimitiveRatios(e) THEN "PrimitiveRatios"
           ELSE IF ~IsPrimitive(e) THEN "IsPrimitive" ELSE IF ~PrimitiveSameGroup(e) THEN "PrimitiveSameGroup"
-          ELSE IF ~VolumePerAtom(e) THEN "VolumePerAtom" ELSE "ok"
+          ELSE IF ~VolumePerAtom(e) THEN "VolumePerAtom"
+          ELSE IF ~DsSane(e) THEN "DRIFT-DatasetNotAsAssumed" ELSE IF ~DatasetCarried(e) THEN "LabelsCarriedFromTheDataset" ELSE "ok"
 
 ---------------------------------------------------------------------------
 \* C05: the conventional cell is the same crystal, chirality preserved
